@@ -451,6 +451,14 @@ class Evaluator:
         for v in e.values:
             if isinstance(v, ast.Constant):
                 parts.append(str(v.value))
+            elif isinstance(v, ast.FormattedValue) and v.format_spec is None and v.conversion == -1:
+                val = self.eval(v.value, st)
+                if isinstance(val, SStr):
+                    parts += val.parts
+                elif isinstance(val, TRef) and (val.typ[0] == "str" or (val.typ[0] == "opt" and val.typ[1][0] == "str")):
+                    parts.append(Ref(val.path))
+                else:
+                    parts.append(Unknown(unparse(v.value)))
             else:
                 parts.append(Unknown(unparse(v)))
         return SStr(parts)
@@ -489,6 +497,12 @@ class Evaluator:
         op = e.op
         # bytes / str concatenation and repetition
         if isinstance(op, ast.Add):
+            def _s(x: t.Any) -> t.Any:
+                if isinstance(x, TRef) and (x.typ[0] == "str" or (x.typ[0] == "opt" and x.typ[1][0] == "str")):
+                    return SStr([Ref(x.path)])
+                return x
+
+            a, b = _s(a), _s(b)
             if isinstance(a, SStr) and isinstance(b, SStr):
                 return a + b
             if isinstance(a, (SBytes, TRef)) and isinstance(b, (SBytes, TRef)) and (
@@ -838,6 +852,20 @@ class Evaluator:
         if name == "join" and isinstance(base, SBytes) and not base.segs and len(e.args) == 1:
             v = self.eval(e.args[0], st)
             return self.join(v, e)
+        if name == "join" and isinstance(base, SStr) and base.is_const() and len(e.args) == 1:
+            v = self.eval(e.args[0], st)
+            if isinstance(v, (list, STuple)):
+                items = v if isinstance(v, list) else v.items
+                out_parts: t.List[t.Any] = []
+                for i, it in enumerate(items):
+                    if isinstance(it, TRef) and (it.typ[0] == "str" or (it.typ[0] == "opt" and it.typ[1][0] == "str")):
+                        it = SStr([Ref(it.path)])
+                    if not isinstance(it, SStr):
+                        return NotImplemented
+                    if i:
+                        out_parts.append(base.const())
+                    out_parts += it.parts
+                return SStr(out_parts)
         if name == "tobytes" and isinstance(base, (SView, BSlice, SBytes)):
             return base
         if name == "encode" and isinstance(base, SStr):
